@@ -129,6 +129,9 @@ pub fn run_harness(env: &Env, bins: &[PathBuf], prop: &str, tier: &str, extra: &
     let mut total = vlib_report::RunReport::default();
     for (mut ch, out) in children {
         let st = ch.wait().map_err(|e| e.to_string())?;
+        if st.code() == Some(3) {
+            return Err("harness watchdog fired (hang or far too slow): inconclusive".into());
+        }
         let text = std::fs::read_to_string(&out).map_err(|_| format!("harness produced no report (status {st:?})"))?;
         let rep: vlib_report::RunReport = serde_json::from_str(&text).map_err(|e| format!("report json: {e}"))?;
         if let Some(a) = &rep.assumption_failure {
@@ -357,7 +360,9 @@ fn finish(
         distinct_nontrivial: rep.nontrivial,
         rule: rule_for(prop).to_string(),
         samples: rep.samples.clone(),
-        exhaustive: false,
+        // C14 enumerates, per declaration, every byte string the range can consume (a finite space, completely);
+        // the quantifier over declarations itself is sampled
+        exhaustive: prop == "C14",
         extra: json!({
             "declarations_generated": decls.len(),
             "declarations_in_harness": rep.decls_total,
